@@ -154,9 +154,55 @@ def _count(nodes):
     return multi, rep
 
 
+def custom_run(tier, seed, shard, nshards, ctx, rec):
+    """thorough tier only: a coverage-guided atheris (libFuzzer) campaign over template TEXT per shard, looking for a
+    compiled program that violates the structural invariant (or a TAL-free document whose expansion is not idempotent).
+    A saved crashing input becomes an ordinary case ({"mode": "text"}) and is re-judged by check_case."""
+    import glob
+    import os
+    import subprocess
+    import sys
+    from pgv import world
+    if tier != "thorough":
+        return
+    verif = os.path.dirname(os.path.dirname(os.path.dirname(os.path.abspath(__file__))))
+    if not os.path.isdir(os.path.join(verif, ".deps", "atheris")):
+        ctx.count("atheris_unavailable_shards")
+        return
+    work = world.fresh_dir("atheris")
+    corpus = os.path.join(work, "corpus")
+    out = os.path.join(work, "out")
+    os.mkdir(corpus)
+    os.mkdir(out)
+    seeds = ['<div tal:repeat="x lst"><b tal:content="x">y</b><br tal:condition="a"></div>',
+             '<p tal:define="global g s1; v s2" tal:attributes="title v" tal:omit-tag="">t</p>',
+             '<div metal:use-macro="lib/macros/m"><i metal:fill-slot="s">f</i></div><b metal:define-macro="m"><u metal:define-slot="s">d</u></b>',
+             '<!DOCTYPE html><script>a < b</script><img src=x><tal:block replace="structure s1"/>']
+    for i, t in enumerate(seeds):
+        with open(os.path.join(corpus, "s%d" % i), "w") as f:
+            f.write(t)
+    runs = 400000
+    env = dict(os.environ, PYTHONPATH=verif + os.pathsep + os.path.join(verif, ".deps"))
+    p = subprocess.run([sys.executable, "-W", "ignore", "-m", "pgv.fuzz.tal_target", "-runs=%d" % runs,
+                        "-seed=%d" % (seed * 1000 + shard + 1), "-max_len=400", "-artifact_prefix=" + out + "/", corpus],
+                       cwd=verif, env=env, stdout=subprocess.PIPE, stderr=subprocess.STDOUT, timeout=1500)
+    ctx.count("atheris_campaigns")
+    ctx.count("atheris_execs", runs)
+    for cf in glob.glob(os.path.join(out, "crash-*")):
+        with open(cf, "rb") as f:
+            text = f.read().decode("utf-8", "replace")
+        rec.run_case({"mode": "text", "text": text}, origin="atheris")
+
+
 def check_case(case, ctx):
     import logging
     logging.disable(logging.CRITICAL)
+    if case.get("mode") == "text":
+        from pgv.fuzz import tal_target
+        probs = tal_target.check_text(case["text"])
+        if probs:
+            return [Fail("fuzz:" + probs[0].split(":")[0], "template text %r: %s" % (case["text"][:200], probs[0]))]
+        return []
     try:
         text, real, probs, _ = expand_real(case)
     except Exception as e:
